@@ -336,6 +336,33 @@ mutual
     | .cons _ (.cons fs' vs'), s, d, k + 1 => leaves2Variants ρ (.cons fs' vs') s d k
 end
 
+mutual
+  /-- `(source, destination)` addresses of the discriminant bytes that decide where the
+      host values of a value are: those of the enums reached through fields that need a
+      drop (a field that needs none has no leaf, whatever its variants) -/
+  def discs2 (ρ : Nat → Nat) : GTy → Nat → Nat → List (Nat × Nat)
+    | .leaf _ _ _ _, _, _ => []
+    | .record fs, s, d => discs2Fields ρ fs s d Builder.new
+    | .enum vs, s, d => (s, d) :: discs2Variants ρ vs s d (ρ s)
+  def discs2Fields (ρ : Nat → Nat) : GTys → Nat → Nat → Builder → List (Nat × Nat)
+    | .nil, _, _, _ => []
+    | .cons t ts, s, d, b =>
+      (if needsDrop t then
+          discs2 ρ t (s + b.addOff (layoutOf t)) (d + b.addOff (layoutOf t)) else [])
+        ++ discs2Fields ρ ts s d (b.add (layoutOf t))
+  def discs2Variants (ρ : Nat → Nat) : GVars → Nat → Nat → Nat → List (Nat × Nat)
+    | .nil, _, _, _ => []
+    | .cons fs .nil, s, d, _ => discs2Fields ρ fs s d (Builder.new.add tagLayout)
+    | .cons fs (.cons _ _), s, d, 0 => discs2Fields ρ fs s d (Builder.new.add tagLayout)
+    | .cons _ (.cons fs' vs'), s, d, k + 1 => discs2Variants ρ (.cons fs' vs') s d k
+end
+
+/-- the `(source, destination)` of the discriminant bytes a clone writes -/
+def tags : List Ev → List (Nat × Nat)
+  | [] => []
+  | .tag s d :: es => (s, d) :: tags es
+  | _ :: es => tags es
+
 def Ev.isStuck : Ev → Bool
   | .stuck => true
   | _ => false
